@@ -429,9 +429,13 @@ class Exec:
         generic element (any exception is a path outcome)"""
         before = {k: v for k, v in env.items()}
         nw = len(s.ext_writes)
+        if not s.decide(cmp('>', seq.n, 0), st): return          # empty list: the loop does nothing
         i = s.fresh("i", 'I')
         s.assume(band(cmp('>=', i, 0), cmp('<', i, seq.n)), 'generic element index')
-        s.assign(st.target, seq.fn(i), env)
+        el = seq.fn(i)
+        inv = s.read_invariant(el)
+        if inv is not None: s.assume(inv, 'class invariant of a list element')
+        s.assign(st.target, el, env)
         s.block(st.body, env)
         tgt = {n.id for n in ast.walk(st.target) if isinstance(n, ast.Name)}
         for k, v in env.items():
@@ -472,6 +476,8 @@ class Exec:
             v = env.get(L)
             if not isinstance(v, PList): raise Unsupported("list %s appended in a generic loop is not a concrete-prefix list" % L, st, path)
             init[L] = v
+        if not s.decide(cmp('>', n, 0), st):
+            s.loops.append(dict(kind='recurrence-skipped', node=st, n=n)); return       # zero iterations: lists keep their prefix
         k = var('k', 'I')
         for L in grown: env[L] = Grow(L, init[L].items, owner=init[L].owner)
         s.assign(st.target, k, env)
@@ -639,14 +645,31 @@ class Exec:
         if isinstance(it, _Range):
             if isinstance(it.n, int): return PList([elt(i) for i in range(it.start, it.n)])
             if it.start != 0: raise Unsupported("range start in comprehension", e)
+            s.probe_elements(it.n, lambda i: elt(i), e)
             return Seq(it.n, lambda i: elt(i))
         if isinstance(it, PList): return PList([elt(v) for v in it.items])
         if isinstance(it, (list, tuple)): return PList([elt(v) for v in it])
         if isinstance(it, Vec): return PList([elt(v) for v in it.xs])
-        if isinstance(it, Seq): return Seq(it.n, lambda i: elt(it.fn(i)))
+        if isinstance(it, Seq):
+            s.probe_elements(it.n, lambda i: elt(s.with_invariant(it.fn(i))), e)
+            return Seq(it.n, lambda i: elt(it.fn(i)))
         if isinstance(it, Post): return Seq(it.length(), lambda i: elt(s.index(it, i, e)))
         if isinstance(it, (set, frozenset)): return PList([elt(v) for v in sorted(it, key=repr)])
         raise Unsupported("comprehension over %r" % (it,), e)
+
+    def probe_elements(s, n, f, node):
+        """a comprehension over a symbolic-length list is built lazily; evaluate its element once for a generic index so
+        that an exception raised by an element is a path outcome of the comprehension (if the list is non-empty)"""
+        if s.speculative: return
+        if not s.decide(cmp('>', n, 0), node): return
+        i = s.fresh("j", 'I')
+        s.assume(band(cmp('>=', i, 0), cmp('<', i, n)), 'generic comprehension index')
+        f(i)
+
+    def with_invariant(s, el):
+        inv = s.read_invariant(el)
+        if inv is not None: s.assume(inv, 'class invariant of a list element')
+        return el
 
     def e_GeneratorExp(s, e, env):
         r = s.e_ListComp(e, env)
